@@ -99,6 +99,19 @@ def gen_ops(tier, rng):
         for m in rng.sample(TRANSLATED + HAND, 4):
             if m != "rmsf":
                 yield "metric.decimal", "det %s mean %s %s" % (m, xvec(obs), xvec(fcst))
+    # a systematic offset far larger than the random error (a Kelvin forecast against Celsius observations, a
+    # units slip): the definitions are well conditioned there, a one-pass rewrite such as mean(e^2) - mean(e)^2
+    # is not (seeded change C05f); judged against the exact-arithmetic definition with the decimal tolerance
+    for _ in range(60 if tier == "quick" else 1200):
+        L = rng.choice([2, 3, 6, 10, 25])
+        obs = [round(rng.gauss(5, 3), 1) for _ in range(L)]
+        K = rng.choice([273.15, 1000.0, 10000.0, -273.15])
+        nz = rng.choice([0.0, 0.001, 0.01])
+        fcst = [o + K + nz * rng.choice([-2, -1, 0, 1, 2]) for o in obs]
+        if rng.random() < 0.3:
+            obs, fcst = fcst, obs
+        for m in rng.sample([x for x in TRANSLATED + HAND if x != "rmsf"], 4) + ["stderror"]:
+            yield "metric.offset", "det %s mean %s %s" % (m, xvec(obs), xvec(fcst))
     for _ in range(60 if tier == "quick" else 1000):
         L = rng.choice([1, 2, 3, 5, 9])
         obs = [rng.choice(GRID) + (0.75 if rng.random() < 0.5 else 0) for _ in range(L)]
